@@ -214,11 +214,73 @@ def options_for(known):
 EXCLUDE_FOR = {}
 
 
+# Hand-written shapes that the generator does not produce (each defines f; `names` are the variables
+# that may be probed, `args` the argument lists, `script` drives a generator)
+SHAPES = [
+    {   # a global declaration alone in a block
+        "body": "def f(p):\n    if p:\n        global G2\n    G2 = p + 1\n    return G2 + __s__(1, 0)\n",
+        "names": ["p"], "args": ["((0,), {})", "((3,), {})"]},
+    {   # a closure variable that is not set when the function runs
+        "body": "def factory():\n    def f(p):\n        z = __s__(1, p)\n        if p > 5:\n            return late + z\n        return z\n    if False:\n        late = 1\n    return f\nf = factory()\n",
+        "names": ["p", "z"], "args": ["((1,), {})", "((9,), {})"]},
+    {   # a functools.wraps wrapper (it, not the function it wraps, is what is called)
+        "body": "import functools\ndef _deco(fn):\n    @functools.wraps(fn)\n    def wrapper(p):\n        q = fn(p) * 2\n        return q + __s__(2, 0)\n    return wrapper\n@_deco\ndef f(p):\n    y = __s__(1, p) + 1\n    return y\n",
+        "names": ["p", "y"], "args": ["((1,), {})", "((4,), {})"]},  # selectors through f reach the wrapped function
+    {   # attributes stored on the function by a decorator
+        "body": "def _mark(fn):\n    fn.bias = 10\n    return fn\n@_mark\ndef f(p):\n    y = __s__(1, p)\n    return y\n",
+        "names": ["p", "y"], "args": ["((1,), {})"], "attr": "bias"},
+    {   # delegation to an iterator that has close() but no throw(); an exception is thrown in
+        "body": "class _It:\n    def __iter__(self):\n        return self\n    def __next__(self):\n        return __s__(1, 7)\n    def close(self):\n        LOG.append(('closed',))\ndef f(p):\n    try:\n        yield from _It()\n    except ValueError:\n        yield __s__(2, p)\n",
+        "names": ["p"], "args": ["((1,), {})"], "script": [["next"], ["throw", "ValueError"], ["next"]]},
+    {   # class-private names in a function defined in a class body
+        "body": "class _K:\n    __bias = 5\n    def f(p):\n        y = __s__(1, p) + _K.__bias\n        return y\nf = _K.f\n",
+        "names": ["p", "y"], "args": ["((1,), {})"]},
+    {   # a with statement with several items, a lambda assigning, a match guard, a multi-line string
+        "body": "def f(p):\n    with CM(1, p) as w1, CM(2, w1 + 1) as w2:\n        a = (lambda: (w1 := 99))() + w1\n    match [a, w2]:\n        case [b, c] if b > 1000:\n            r = 1\n        case [b, c]:\n            r = len(\"\"\"x\n    y\"\"\") + b + c\n    return r\n",
+        "names": ["w1", "w2", "a", "b", "c", "r"], "args": ["((1,), {})", "((2000,), {})"]},
+]
+
+
+def shape_module(k):
+    sh = SHAPES[k]
+    src = progen.PRELUDE + "\n" + sh["body"] + "\ndef make_args(i):\n" + "".join(f"    if i == {i}: return {a}\n" for i, a in enumerate(sh["args"])) + "    raise IndexError(i)\n"
+    return {"src": src, "names": sh["names"], "nargs": len(sh["args"]), "script": sh.get("script"), "features": [f"shape_{k}"], "is_gen": bool(sh.get("script")),
+            "params": ["p"], "loopvars": [], "anns": {}, "declared": [], "attr": sh.get("attr")}
+
+
+def check_shapes(spec, res):
+    for k in range(len(SHAPES)):
+        m = shape_module(k)
+        counter = [0]
+
+        def loader(m=m, k=k, counter=counter):
+            counter[0] += 1
+            return prorun.load_src(m["src"], spec["scratch"], f"c01shape_{k}_{counter[0]}")
+
+        rnd = rng_for("C01shape", spec["seed"], k)
+        case_base = {"shape": k, "seed": spec["seed"], "src": m["src"], "script": m["script"]}
+        try:
+            check_program(m, loader, rnd, res, case_base, 6)
+            if m["attr"]:
+                from ptera import tooled
+
+                mod = loader()
+                res.evaluations += 1
+                res.deciding += 1
+                if getattr(tooled(mod.f), m["attr"], None) != getattr(mod.f, m["attr"]):
+                    res.violation(case_base, {"what": f"tooled(f) lost the attribute {m['attr']!r} that a decorator stored on f"})
+        except Exception as e:
+            res.violation(case_base, "harness exception: " + common.fmt_exc(e))
+        res.count("hand_written_shapes")
+
+
 def run_shard(spec):
     res = ShardResult()
     check_program.ilog = InteractLog()
     s0, cnt = spec["range"]
     known = spec.get("known", [])
+    if s0 == 0:
+        check_shapes(spec, res)
     for i in range(s0, s0 + cnt):
         rnd = rng_for("C01", spec["seed"], i)
         opts = dict(options_for(known))
